@@ -175,5 +175,21 @@ def main():
         return 2
 
 
+def _sweep_work():
+    """Remove the per-process scratch directories (.work/<check>-<pid>) of processes that are gone."""
+    import glob
+    import re
+    import shutil
+    for d in glob.glob(os.path.join(HERE, '.work', 'c[0-9][0-9]-*')):
+        m = re.search(r'-(\d+)$', d)
+        if m and not os.path.exists(f'/proc/{m.group(1)}'):
+            shutil.rmtree(d, ignore_errors=True)
+
+
 if __name__ == '__main__':
-    sys.exit(main())
+    rc = main()
+    try:
+        _sweep_work()
+    except Exception:
+        pass
+    sys.exit(rc)
